@@ -40,6 +40,9 @@ func init() {
 			{ID: "C17-R15", Title: "stored numbers are taken at face value", Floor: 0, Run: storedNumbersAreTakenAtFaceValue},
 			{ID: "C17-R16", Title: "tables are found the way they are numbered", Floor: 1, Run: tablesAreFoundTheWayTheyAreNumbered},
 			{ID: "C17-R17", Title: "scalars of a loaded code object come from its own definition", Floor: 3, Run: loadedScalarsComeFromTheirOwnDefinition},
+			{ID: "C17-R18", Title: "the loader does not single out names", Floor: 1, Run: theLoaderDoesNotSingleOutNames},
+			{ID: "C17-R19", Title: "numbering continues where the code handed in left off", Floor: 1, Run: numberingContinuesWhereTheCodeLeftOff},
+			{ID: "C17-R20", Title: "the marshaller refuses what the loader cannot read", Floor: 2, Run: theMarshallerRefusesWhatTheLoaderCannotRead},
 		},
 	})
 }
